@@ -179,6 +179,47 @@ example : ((Node.init 0).rotate).checkToken toyC ⟨1, 2, 3⟩ ((Node.init 0).ge
 
 example : ((Node.init 0).run toyC [.adv 299, .rotate, .adv 1]).secrets = [(1, 299), (2, 300)] := by decide +kernel
 
+/-! ## find -/
+
+/-- `on_find_request` answers with at most MAX_VALUES_IN_FIND values, each of them the data of a value stored under the
+    target, and with the token of this requester under the newest secret. -/
+theorem find_reports_stored_values {Tok : Type} (C : Crypto Tok) (n : Node) (who : Ident) (nid target offset : Nat)
+    (force : Bool) (tok : Tok) (vals : List Nat) (h : (n.findReq C who nid target offset force).2 = some (tok, vals)) :
+    tok = C.tokenHash who.addr who.mid n.newestSecret ∧ vals.length ≤ Gen.maxValuesInFind ∧
+    ∀ d ∈ vals, ∃ v ∈ n.store.getItems target, v.data = d := by
+  unfold Node.findReq at h
+  split at h
+  · simp at h
+  · simp only [Option.some.injEq, Prod.mk.injEq] at h
+    obtain ⟨h1, h2⟩ := h
+    refine ⟨h1.symm, ?_, ?_⟩
+    · rw [← h2]
+      split
+      · simp
+      · simp only [Storage.get, sliceItems, List.length_map, List.length_take]
+        exact Nat.min_le_left _ _
+    · intro d hd
+      rw [← h2] at hd
+      split at hd
+      · simp at hd
+      · simp only [Storage.get, sliceItems, List.mem_map] at hd
+        obtain ⟨v, hv, rfl⟩ := hd
+        exact ⟨v, List.mem_of_mem_drop (List.mem_of_mem_take hv), rfl⟩
+
+/-- In every reachable state the token a find hands out is accepted by `check_token` for the same requester
+    (the gate of `store_requires_token` is not vacuous at any point of any history). -/
+theorem issued_token_is_accepted {Tok : Type} [DecidableEq Tok] (C : Crypto Tok) (t0 : Nat) (ops : List (Op Tok))
+    (who : Ident) :
+    ((Node.init t0).run C ops).checkToken C who (((Node.init t0).run C ops).genToken C who) = true := by
+  have hinv := inv_run C ops (Node.init t0) ⟨tokInv_init t0, by simpa [Node.init] using wf_nil⟩
+  generalize (Node.init t0).run C ops = n at hinv
+  obtain ⟨⟨_, _, h3⟩, _⟩ := hinv
+  rcases h3 with ⟨x, hx, _⟩ | ⟨x, y, hxy, _, _⟩
+  · simp [Node.checkToken, Gen.checkScope, Node.genToken, Node.newestSecret, hx]
+  · simp [Node.checkToken, Gen.checkScope, Node.genToken, Node.newestSecret, hxy]
+
+example : (Node.findReq toyC (Node.init 5) ⟨1, 2, 3⟩ 0 7 0 false).2 = some ((1, 3, 0), []) := by decide
+
 /-! ## authenticity -/
 
 /-- A value whose signature does not verify under the key it names never enters the storage. -/
